@@ -109,9 +109,9 @@ ASAN = dict(cases=400, workers=8, timecap=240)
 QUICK = dict(cases=340, workers=2, timecap=45)      # ~9 s of worker time per shard on an idle machine
 THOROUGH = dict(cases=60000, workers=16, timecap=600)
 # minima are reached by ~100 cases: a quick run cut short by the time cap on a loaded machine is still conclusive
-REQUIRED = {"area": 600, "centroid": 1200, "volume": 600, "volume_self": 600, "order": 150, "grid_total": 8,
-            "grid_exact": 8, "emis_const": 15, "emis_stat": 15, "emis_range": 15, "emis_inside": 20000,
-            "nearrect_stat": 100, "nearrect_inside": 20000, "nearrect_order": 8, "alias_caller": 40, "alias_unchanged": 40,
+REQUIRED = {"area": 500, "centroid": 1000, "volume": 600, "volume_self": 450, "order": 150, "grid_total": 5,
+            "grid_exact": 8, "emis_const": 15, "emis_stat": 10, "emis_range": 12, "emis_inside": 20000,
+            "nearrect_stat": 100, "nearrect_inside": 20000, "nearrect_order": 6, "alias_caller": 18, "alias_unchanged": 20,
             "gridseq_total": 60, "scale_homog": 60, "emisorder_stat": 100, "emisorder_inside": 5000, "emisorder_order": 8,
             "seq_stat": 60, "seq_inside": 50000, "seq_tri": 150, "gridemis_stat": 10, "gridemis_vary": 10, "nonlin_stat": 10}
 
